@@ -1087,7 +1087,8 @@ class UnknownNode:
         self.require_mapping()
         attr_nodes = [
             value_node for key_node, value_node in self.yaml_node.value
-            if key_node.value == attribute
+            if (key_node.tag == 'tag:yaml.org,2002:str'
+                and key_node.value == attribute)
         ]
         if len(attr_nodes) == 0:
             raise RecognitionError(
